@@ -996,7 +996,13 @@ func GrammarGen(cfg GenConfig) *rapid.Generator[*Grammar] {
 		if !cfg.NoScale && c.chance(10, "scale") {
 			// big entry rules (scale.go)
 			big := c.bigRules()
-			c.g.Rules = append(c.g.Rules, big...)
+			if c.chance(40, "bigfirst") {
+				// the big rules come first in the file (what the tool finds late in a big grammar -
+				// the first state block, the first left-recursive rule - it still has to find)
+				c.g.Rules = append(append([]*Rule{}, big...), c.g.Rules...)
+			} else {
+				c.g.Rules = append(c.g.Rules, big...)
+			}
 			for _, br := range big {
 				c.nullable[br.Name] = br.Big == "star"
 				if br.Big != "" {
